@@ -211,6 +211,57 @@ func domainPDUs(sp *refcodec.Spec, msgs []*refcodec.Msg, r *prng.Rand, thorough 
 	all := dispatchable(sp)
 	dict := dictSeqs()
 	for _, def := range msgs {
+		// several elements of one message carrying dictionary values at once: a value
+		// that is only special together with another element of the same message
+		nMulti := 40
+		if thorough {
+			nMulti = 400
+		}
+		if len(def.OptSlots())+def.NMand()-def.HeaderLen() < 2 {
+			nMulti = 0
+		}
+		for i := 0; i < nMulti && len(dict) > 0; i++ {
+			pl := refcodec.NewPlan(def, r, 3)
+			fill := func(sl *refcodec.Slot) (int, []byte) {
+				n := sl.Max
+				if sl.LenSize() > 0 {
+					n = refcodec.InRangeLen(r, sl)
+					if n > 64 {
+						n = sl.Min
+					}
+				}
+				val := r.Pattern(r.Intn(5), n)
+				if r.Chance(2, 3) {
+					s := dict[r.Intn(len(dict))]
+					if w := dictOfWidth(n); len(w) > 0 && r.Bool() {
+						s = w[r.Intn(len(w))]
+					}
+					if len(s) <= n {
+						off := 0
+						if r.Chance(1, 4) {
+							off = r.Intn(n - len(s) + 1)
+						}
+						copy(val[off:], s)
+					}
+				}
+				return n, val
+			}
+			for si := def.HeaderLen(); si < def.NMand(); si++ {
+				if sl := &def.Slots[si]; sl.LenSize() > 0 || sl.Max >= 2 {
+					n, val := fill(sl)
+					pl.Mand[si].Decl, pl.Mand[si].Val = n, val
+				}
+			}
+			for _, si := range def.OptSlots() {
+				if i%3 == 0 && r.Chance(1, 3) {
+					continue
+				}
+				sl := &def.Slots[si]
+				n, val := fill(sl)
+				pl.Opt = append(pl.Opt, refcodec.OptElem(def, si, n, val, r))
+			}
+			add(def, "dictionary-multi", pl.Bytes(), pl.Canonical())
+		}
 		for si := range def.Slots {
 			sl := &def.Slots[si]
 			if si < def.HeaderLen() {
